@@ -125,6 +125,50 @@ M = {
     "remaining_gas_not_updated": (EX, """                statuses = self.preconfirmation_sender.try_send(statuses);
                 remaining_gas_limit = block_gas_limit.saturating_sub(data.used_gas);""", """                statuses = self.preconfirmation_sender.try_send(statuses);
                 remaining_gas_limit = block_gas_limit.saturating_sub(data.used_gas.min(1));"""),
+    # ---- C07 (only one side of the native/WASM pair changes)
+    "wasm_production_runs_as_dry_run": ("crates/services/upgradable-executor/wasm-executor/src/main.rs", """        .produce_without_commit(block, false, NewTxWaiter, PreconfirmationSender)""", """        .produce_without_commit(block, true, NewTxWaiter, PreconfirmationSender)"""),
+    "host_storage_get_truncates": ("crates/services/upgradable-executor/src/instance.rs", """                    caller
+                        .write(out_ptr, &value)
+                        .map_err(wasmtime::Error::from_anyhow)?;
+                    Ok(0)""", """                    caller
+                        .write(out_ptr, &value[..value.len().saturating_sub(1)])
+                        .map_err(wasmtime::Error::from_anyhow)?;
+                    Ok(0)"""),
+    "wasm_result_conversion_drops_events": ("crates/services/upgradable-executor/wasm-executor/src/utils.rs", """            let skipped_transactions: Vec<_> = skipped_transactions
+                .into_iter()
+                .map(|(id, error)| (id, ExecutorError::from(error)))
+                .collect();
+
+            let result = ExecutionResult {
+                block,
+                skipped_transactions,
+                tx_status,
+                events,
+            };
+
+            Uncommitted::new(result, changes)
+        })
+        .map_err(ExecutorError::from)
+}
+
+/// Converts the `ExecutionV0` to latest execution result.""", """            let skipped_transactions: Vec<_> = skipped_transactions
+                .into_iter()
+                .map(|(id, error)| (id, ExecutorError::from(error)))
+                .collect();
+
+            let result = ExecutionResult {
+                block,
+                skipped_transactions,
+                tx_status,
+                events: events.into_iter().skip(1).collect(),
+            };
+
+            Uncommitted::new(result, changes)
+        })
+        .map_err(ExecutorError::from)
+}
+
+/// Converts the `ExecutionV0` to latest execution result."""),
     # ---- C45
     "dry_run_commits": (UP, DRY("true")),
     "dry_run_commits_when_recording": (UP, DRY("record_storage_reads")),
